@@ -1154,6 +1154,7 @@ func runC09(c *Ctx, r *Report) {
 	c09CloseOnce(c, r, "C09.R20")
 	c09DiscardOnlyUnaddressed(c, r, "C09.R21")
 	c05UDPWaits(c, r, "C09.R22")    // a wait that nothing but a datagram ends keeps the association (and its table entry) for ever
+	c09FreshAfterEnd(c, r, "C09.R23")
 	c05R7(c, r, "C09.R12")          // setting the deadline of a virtual connection never blocks (the association's handler, its queue and then the server loop would wait with it)
 	c05UDPDeadline(c, r, "C09.R13") // ... and arms the timer that wakes a waiting Read
 }
